@@ -51,6 +51,7 @@ type Result struct {
 	Lines     []string // unquoted JSON lines printed by the spec
 	Violated  string   // invariant / property name, "" if none
 	Deadlock  bool
+	PostFalse bool // a POSTCONDITION evaluated to FALSE (trace not accepted)
 	ErrorText string // TLC-level error other than a property violation
 	TimedOut  bool
 	Finished  bool // "Model checking completed" / simulation finished
@@ -201,6 +202,8 @@ func Run(o Options) (*Result, error) {
 				res.Deadlock = true
 			} else if strings.Contains(line, "Model checking completed") || strings.Contains(line, "Finished in") {
 				res.Finished = true
+			} else if strings.HasPrefix(line, "Error: Postcondition") {
+				res.PostFalse = true
 			} else if strings.HasPrefix(line, "Error:") {
 				inErr = true
 				errBuf.WriteString(line + "\n")
@@ -235,7 +238,7 @@ func Run(o Options) (*Result, error) {
 
 // OK reports whether the run completed without violation or tool error.
 func (r *Result) OK() bool {
-	return r.Violated == "" && !r.Deadlock && r.ErrorText == "" && !r.TimedOut && r.Finished
+	return r.Violated == "" && !r.Deadlock && r.ErrorText == "" && !r.TimedOut && r.Finished && !r.PostFalse
 }
 
 // Describe is a short human-readable summary.
